@@ -16,6 +16,6 @@ if [ ! -d "$D/target" ] && [ -d /verif/harness/target ]; then
 fi
 cat > "$D/env.sh" <<EOT
 export RUSTUP_TOOLCHAIN=stable-x86_64-unknown-linux-gnu CARGO_NET_OFFLINE=true CARGO_TERM_COLOR=never
-export CARGO_TARGET_DIR=$D/target VERIF_HOME=$D/home CARGO_BUILD_JOBS=6 VERIF_THREADS=6
+export CARGO_TARGET_DIR=$D/target VERIF_HOME=$D/home CARGO_BUILD_JOBS=4 VERIF_THREADS=4
 EOT
 echo "scratch ready: $D  (source $D/env.sh; cd $D/harness; cargo build --release --offline; $D/target/release/check --property Cxx --tier quick)"
